@@ -109,6 +109,19 @@ type Case struct {
 
 var S, I, L, QS, QL = gen.S, gen.I, gen.L, gen.QS, gen.QL
 
+// failFormIn is failForm for the kinds that refer to the enclosing function.
+func failFormIn(kind string, self string) gen.Val {
+	switch kind {
+	case "tail-self-arity":
+		// the recursive call itself is rejected: with elimination on it is
+		// re-entered in the frame of the first call
+		return L(S(self))
+	case "tail-self-arity-if":
+		return L(S("if"), L(S("nil?"), S("x")), I(0), L(S(self), S("x"), S("x")))
+	}
+	return failForm(kind)
+}
+
 func failForm(kind string) gen.Val {
 	switch kind {
 	case "unbound":
@@ -142,6 +155,80 @@ func failForm(kind string) gen.Val {
 		return L(S("mbs"), S("x"))
 	case "arg-of-call":
 		return L(S("list"), I(1), L(S("car"), S("x")), I(3))
+	case "funcall-nonfn":
+		return L(S("funcall"), I(5), S("x"))
+	case "head-nonfn":
+		return L(I(5), S("x"))
+	case "assert":
+		return L(S("assert"), L(S("nil?"), S("x")))
+	case "assert-msg":
+		return L(S("assert"), L(S("nil?"), S("x")), gen.Str("bad {}"), S("x"))
+	case "error-custom":
+		return L(S("error"), QS("my-cond"), gen.Str("data"), S("x"))
+	case "rethrow-outside":
+		return L(S("rethrow"))
+	case "unknown-package":
+		return S("nopkg:foo")
+	case "callback-builtin":
+		// a builtin called by a builtin rejects its argument
+		return L(S("map"), QS("list"), S("car"), L(S("list"), S("x")))
+	case "foldl-builtin":
+		return L(S("foldl"), S("+"), I(0), L(S("list"), gen.Str("a")))
+	case "apply-arity":
+		return L(S("apply"), S("cons"), L(S("list"), S("x")))
+	case "aref-range":
+		return L(S("aref"), L(S("vector"), I(1), I(2)), I(9))
+	case "get-type":
+		return L(S("get"), S("x"), I(1))
+	case "sorted-map-odd":
+		return L(S("sorted-map"), I(1))
+	case "in-handler":
+		// raised by a handler while it handles another error
+		return L(S("handler-bind"), L(L(S("condition"), L(S("lambda"), L(S("c"), S("&rest"), S("d")), L(S("list"), S("c")), L(S("car"), S("x"))))), L(S("error"), QS("e1"), gen.Str("d")))
+	case "keyword-unknown":
+		return L(S("kw"), S(":b"), I(1))
+	case "optional-too-many":
+		return L(S("opt"), I(1), I(2), I(3))
+	case "lambda-call-arity":
+		return L(L(S("lambda"), L(S("a")), S("a")))
+	case "set-quoted-constant":
+		return L(S("set"), QS("true"), S("x"))
+	case "dotimes-type":
+		return L(S("dotimes"), L(S("i"), gen.Str("a")), S("x"))
+	case "div-zero":
+		return L(S("/"), S("x"), I(0))
+	case "macro-arity":
+		return L(S("mt"))
+	case "macro-body-error":
+		return L(S("me"), S("x"))
+	case "arg-of-user-call":
+		return L(S("two-args"), S("x"), L(S("car"), I(5)))
+	case "let-init":
+		return L(S("let"), L(L(S("t1"), L(S("car"), I(5)))), S("t1"))
+	case "let*-init2":
+		return L(S("let*"), L(L(S("t1"), S("x")), L(S("t2"), L(S("car"), S("t1")))), S("t2"))
+	case "if-condition":
+		return L(S("if"), L(S("car"), I(5)), I(1), I(2))
+	case "cond-test":
+		return L(S("cond"), L(L(S("car"), I(5)), I(1)), L(S("else"), I(2)))
+	case "dotimes-count":
+		return L(S("dotimes"), L(S("i"), L(S("car"), I(5))), S("x"))
+	case "and-first":
+		return L(S("and"), L(S("car"), I(5)), S("x"))
+	case "progn-middle":
+		return L(S("progn"), L(S("list"), I(1)), L(S("car"), I(5)), S("x"))
+	case "thread-last":
+		return L(S("thread-last"), S("x"), L(S("list")), L(S("car")), L(S("car")))
+	case "thread-first-arg":
+		return L(S("thread-first"), S("x"), L(S("cons"), L(S("car"), I(5))))
+	case "set-value":
+		return L(S("set!"), S("x"), L(S("car"), I(5)))
+	case "flet-bad-binding":
+		return L(S("flet"), L(L(S("g"))), S("x"))
+	case "let-bad-binding":
+		return L(S("let"), L(L(I(5), I(1))), S("x"))
+	case "lambda-bad-formals":
+		return L(S("lambda"), L(I(5)), S("x"))
 	case "set-unbound":
 		// assignment to a name bound nowhere: raised below the innermost scope
 		return L(S("set!"), S("no-such-var"), L(S("+"), S("x"), I(1)))
@@ -153,7 +240,11 @@ func failForm(kind string) gen.Val {
 }
 
 var failKinds = []string{"unbound", "unbound-head", "error", "type", "type2", "arity", "arity0", "user-arity", "macro-template", "macro-built", "arg-of-call", "mod-zero",
-	"macro-template-splice", "macro-built-nested", "macro-built-symbol-nested", "set-unbound", "set-constant"}
+	"macro-template-splice", "macro-built-nested", "macro-built-symbol-nested", "set-unbound", "set-constant",
+	"funcall-nonfn", "head-nonfn", "assert", "assert-msg", "error-custom", "rethrow-outside", "unknown-package", "callback-builtin", "foldl-builtin", "apply-arity",
+	"aref-range", "get-type", "sorted-map-odd", "in-handler", "keyword-unknown", "optional-too-many", "lambda-call-arity", "set-quoted-constant", "dotimes-type", "div-zero",
+	"macro-arity", "macro-body-error", "arg-of-user-call", "let-init", "let*-init2", "if-condition", "cond-test", "dotimes-count", "and-first", "progn-middle",
+	"thread-last", "thread-first-arg", "tail-self-arity", "tail-self-arity-if", "set-value", "flet-bad-binding", "let-bad-binding", "lambda-bad-formals"}
 var wrapKinds = []string{"let", "let*", "cond", "dotimes", "handler-bind", "progn", "if", "plus-arg", "map-callback", "funcall", "apply", "labels", "flet", "and", "or-last", "thread-first", "foldl"}
 
 func wrap(kind string, inner gen.Val) gen.Val {
@@ -195,15 +286,8 @@ func wrap(kind string, inner gen.Val) gen.Val {
 	}
 }
 
-func genCase() *rapid.Generator[Case] {
-	return rapid.Custom(func(t *rapid.T) Case {
-		c := Case{
-			Kind:  rapid.SampledFrom(failKinds).Draw(t, "kind"),
-			Depth: rapid.IntRange(1, 5).Draw(t, "depth"),
-			Loop:  rapid.SampledFrom([]int{0, 0, 0, 2, 5}).Draw(t, "loop"),
-		}
-		var forms []gen.Val
-		forms = append(forms,
+func prelude() []gen.Val {
+	return []gen.Val{
 			L(S("defun"), S("two-args"), L(S("a"), S("b")), L(S("list"), S("a"), S("b"))),
 			L(S("defmacro"), S("mt"), L(S("a")), L(S("quasiquote"), L(S("progn"), L(S("list"), I(0)), L(S("car"), L(S("unquote"), S("a")))))),
 			L(S("defmacro"), S("mb"), L(S("a")), L(S("list"), L(S("car"), QL(S("car"))), S("a"))),
@@ -212,9 +296,22 @@ func genCase() *rapid.Generator[Case] {
 			// it takes the inner macro's call site, i.e. the template position
 			L(S("defmacro"), S("mbn"), L(S("a")), L(S("quasiquote"), L(S("progn"), L(S("list"), I(0)), L(S("mb"), L(S("unquote"), S("a")))))),
 			L(S("defmacro"), S("mbs"), L(S("a")), L(S("quasiquote"), L(S("progn"), L(S("list"), L(S("unquote"), S("a"))), L(S("list"), L(S("unquote"), L(S("gensym"))))))),
-		)
+		L(S("defmacro"), S("me"), L(S("a")), L(S("list"), I(1)), L(S("car"), I(5))),
+		L(S("defun"), S("kw"), L(S("&key"), S("a")), L(S("list"), S("a"))),
+		L(S("defun"), S("opt"), L(S("a"), S("&optional"), S("b")), L(S("list"), S("a"), S("b"))),
+	}
+}
+
+func genCase() *rapid.Generator[Case] {
+	return rapid.Custom(func(t *rapid.T) Case {
+		c := Case{
+			Kind:  rapid.SampledFrom(failKinds).Draw(t, "kind"),
+			Depth: rapid.IntRange(1, 5).Draw(t, "depth"),
+			Loop:  rapid.SampledFrom([]int{0, 0, 0, 2, 5}).Draw(t, "loop"),
+		}
+		forms := prelude()
 		// the failing form sits in the innermost function, under wrappers
-		body := failForm(c.Kind)
+		body := failFormIn(c.Kind, fmt.Sprintf("f%d", c.Depth-1))
 		for d := c.Depth - 1; d >= 0; d-- {
 			nw := rapid.IntRange(0, 3).Draw(t, "nwraps")
 			for i := 0; i < nw; i++ {
@@ -252,9 +349,11 @@ func genCase() *rapid.Generator[Case] {
 }
 
 type frame struct {
-	name string
-	loc  Loc
-	has  bool
+	name   string
+	loc    Loc
+	has    bool
+	alt    Loc // second acceptable call site (handler frames)
+	hasAlt bool
 }
 
 func realFrames(v *lisp.LVal) []frame {
@@ -288,7 +387,7 @@ func fmtFrames(fs []frame) string {
 }
 
 func sameFrame(r frame, want frame) bool {
-	if r.has != want.has || (r.has && r.loc != want.loc) {
+	if r.has != want.has || (r.has && r.loc != want.loc && !(want.hasAlt && r.loc == want.alt)) {
 		return false
 	}
 	if strings.Contains(want.name, ":") && !strings.HasSuffix(want.name, ":lambda") && r.name != want.name {
@@ -335,6 +434,9 @@ func check(cs Case, c *vcommon.Ctx) *vcommon.Failure {
 		fr := frame{name: f.Name}
 		if l, ok := pos[f.Node]; ok && f.Node >= 0 {
 			fr.loc, fr.has = l, true
+		}
+		if l, ok := pos[f.Alt]; ok && f.Alt >= 0 {
+			fr.alt, fr.hasAlt = l, true
 		}
 		wantChain = append(wantChain, fr)
 	}
